@@ -113,6 +113,16 @@ type CallGuard struct {
 	Names map[string]bool
 }
 
+// CallOnly: `callonly[Cxx] <external function> [, ...] by <function> [, ...]`: the named external
+// functions (or `iface:pkg.Iface.method`) are called only in the listed functions of the own
+// packages (package-wide condition, decided by a scan of every call site).
+type CallOnly struct {
+	Names map[string]bool
+	By    map[string]bool
+	Tags  []string
+	Text  string
+}
+
 type ContractDB struct {
 	funcs    map[string]*Contract
 	pures    map[string]*PureFn
@@ -126,6 +136,7 @@ type ContractDB struct {
 	protectList []*Protect
 	writeonly   []*WriteOnly
 	callguards  []*CallGuard
+	callonly    []*CallOnly
 	protectH    map[string]*Protect // by heap name, resolved lazily
 	nonnull  []string // heap designators whose loaded values are never nil (trusted type invariants)
 	nonnullH map[string]bool
@@ -315,7 +326,7 @@ func (db *ContractDB) loadFile(path, pkg string) error {
 	// join continuation lines: a line that does not start with a keyword
 	// continues the previous one
 	topKw := map[string]bool{"func": true, "loop": true, "pure": true, "abstract": true, "ghost": true, "method": true, "functype": true,
-		"extern": true, "lockinv": true, "protect": true, "writeonly": true, "callguard": true, "axiom": true, "lemma": true, "wgres": true, "wgorder": true, "nonnull": true, "predicate": true}
+		"extern": true, "lockinv": true, "protect": true, "writeonly": true, "callguard": true, "callonly": true, "axiom": true, "lemma": true, "wgres": true, "wgorder": true, "nonnull": true, "predicate": true}
 	var joined []string
 	for _, l := range lines {
 		w := strings.Fields(l)[0]
@@ -453,6 +464,30 @@ func (db *ContractDB) loadFile(path, pkg string) error {
 				}
 			}
 			db.callguards = append(db.callguards, cg)
+		case "callonly":
+			co := &CallOnly{Names: map[string]bool{}, By: map[string]bool{}}
+			r := rest
+			if strings.HasPrefix(r, "[") {
+				j := strings.Index(r, "]")
+				co.Tags = strings.Split(r[1:j], ",")
+				r = strings.TrimSpace(r[j+1:])
+			}
+			i := strings.Index(r, " by ")
+			if i < 0 {
+				return fmt.Errorf("%s: callonly: expected `<function>, ... by <function>, ...`: %q", path, l)
+			}
+			co.Text = r
+			for _, x := range strings.Split(r[:i], ",") {
+				if x = strings.TrimSpace(x); x != "" {
+					co.Names[x] = true
+				}
+			}
+			for _, x := range strings.Split(r[i+4:], ",") {
+				if x = strings.TrimSpace(x); x != "" {
+					co.By[x] = true
+				}
+			}
+			db.callonly = append(db.callonly, co)
 		case "writeonly":
 			// writeonly[Cxx,...] <pkg>.<Type>.<field> by <function> [, <function> ...]
 			wo := &WriteOnly{By: map[string]bool{}}
